@@ -275,6 +275,9 @@ func TestHarness(t *testing.T) {
 		}
 		g := &Gen{Tier: *tier, Seed: *seed, Shard: *shard, Of: *of, out: out, flushLine: flushLine}
 		gen(g)
+	case "stress":
+		out.Flush()
+		finish(stressMain(args[1:]))
 	case "replay":
 		// Re-execute the operations of the cases on stdin (results after "=>" are ignored).
 		sc := bufio.NewScanner(os.Stdin)
